@@ -701,6 +701,32 @@ def fam_recerr(rnd, i):
     return steps
 
 
+def fam_wlpark(rnd, i):
+    """WatchList taken while the reader is parked sending the very event that ends a watch (unbuffered Watcher): by then it
+    has handled that record, so the list must not show the watch any more - whatever housekeeping record is still queued
+    behind it.  Deterministic: the consumer receives one event at a time until the reader sits on the Remove / Rename."""
+    w = "w1"
+    steps = [fs("mkdir", ("d1",)), fs("create", ("d1", "n1")), fs("mkdir", ("d1", "s1")), new(w, 0)]
+    tgt = rnd.choice([("d1", "n1"), ("d1", "n1"), ("d1", "s1")])
+    isdir = tgt == ("d1", "s1")
+    steps.append(call(w, "add", tgt, rnd.choice(["rel", "abs", "dot"]), rnd))
+    pre = rnd.randint(0, 2)
+    for _ in range(pre):
+        steps += [fs("chmod", tgt), recv(w)]                    # received at once: no merging with what follows
+    how = rnd.choice(["delete", "delete", "move"])
+    if how == "delete":
+        steps.append(fs("rmdir" if isdir else "unlink", tgt))
+        if not isdir:
+            steps.append(recv(w))                               # the Chmod of the link count; now the reader is parked on the Remove
+    else:
+        steps.append(fs("rename", tgt, to=("d1", "gone")))      # parked on the Rename
+    steps += [obs(w), call(w, "watchlist"), recv(w), drain(w), call(w, "watchlist"), obs(w)]
+    if rnd.random() < 0.5:
+        steps += [fs("mkdir" if isdir else "create", tgt), call(w, "add", tgt, "rel"), fs("chmod", tgt), drain(w), call(w, "watchlist"), obs(w)]
+    steps += epilogue(w)
+    return steps
+
+
 def fam_moves(rnd, i, depth=30):
     """Rename correlation: moves within / between watched directories, in from and out to
     unwatched places (leaving unmatched cookies behind), plain creates and hard links in between."""
@@ -1481,7 +1507,7 @@ FAMS = {
     "cycle": fam_cycle, "newclose": fam_newclose, "overflow": fam_overflow, "moves": fam_moves, "multi": fam_multi,
     "absorb": fam_absorb, "withops": fam_withops, "repoint": fam_repoint, "stall": fam_stall, "spell": fam_spell,
     "endwatch": fam_endwatch, "paced": fam_paced, "ovfstall": fam_ovfstall, "ovflate": fam_ovflate,
-    "parmoves": fam_parmoves, "multix": fam_multix, "recurse": fam_recurse, "cwd": fam_cwd, "readfault": fam_readfault, "recerr": fam_recerr,
+    "parmoves": fam_parmoves, "multix": fam_multix, "recurse": fam_recurse, "cwd": fam_cwd, "readfault": fam_readfault, "wlpark": fam_wlpark, "recerr": fam_recerr,
     "kqdir": fam_kqdir, "kqsym": fam_kqsym, "kqburst": fam_kqburst, "kqcycle": fam_kqcycle, "kqfault": fam_kqfault, "kqdot": fam_kqdot, "kqseq": fam_kqseq, "kqkfault": fam_kqkfault, "kqnested": fam_kqnested,
 }
 
